@@ -450,32 +450,24 @@ class C10(Scenario):
             for q in [q for q in t if q == p or q.startswith(p + "/")]:
                 del t[q]
 
-        # the statement fixes no order across kinds inside one poll: normalise each poll's batch to deletions, directory
-        # moves (outermost first), file moves, directory creations (outermost first), file creations
-        def rank(e):
-            et, isd, s, d = e
-            return ({"deleted": 0, "moved": 1 if isd else 2, "created": 3 if isd else 4}.get(et, 9), s.count("/"))
-
+        # Each poll's events are the entry-by-entry difference of two concrete snapshots (every entry whose path changed
+        # has its own moved event, every vanished entry its own deleted event), and the statement fixes no order across
+        # kinds inside one poll.  So a poll's batch is applied as a set operation:
+        #   tree = (tree - deleted - move sources) + created + move destinations
+        # which telescopes to the last snapshot iff every poll reported exactly its difference.
         batches = {}
         for tm, e in hist["events"]:
             batches.setdefault(tm, []).append(e)
         for tm in sorted(batches):
-            for et, isd, s, d in sorted(batches[tm], key=rank):
-                kind = "d" if isd else "f"
+            b = batches[tm]
+            for et, isd, s, d in b:
+                if et == "deleted" or et == "moved":
+                    t.pop(s, None)
+            for et, isd, s, d in b:
                 if et == "created":
-                    t[s] = kind
-                elif et == "deleted":
-                    if t.get(s) == kind:
-                        rm(s)
+                    t[s] = "d" if isd else "f"
                 elif et == "moved":
-                    if t.get(s) == kind:
-                        sub = {q: k for q, k in t.items() if q == s or q.startswith(s + "/")}
-                        rm(s)
-                        rm(d)
-                        for q, k in sub.items():
-                            t[d + q[len(s):]] = k
-                    else:
-                        t.setdefault(d, kind)
+                    t[d] = "d" if isd else "f"
         final = {p: s[2] for p, s in hist["final_state"].items()}
         if not case["recursive"]:
             final = {p: k for p, k in final.items() if p == ROOT or os.path.dirname(p) == ROOT}
